@@ -1010,6 +1010,12 @@ pub fn replay_main(worlds: &[&'static dyn World], path: &str) -> i32 {
         exec_case_in_child(&id, &body["case"], hang_s).violation()
     };
     match got {
+        Some(v) if v.class == "known-defect-model" && is_known(&known_findings(), &id, &v.key).is_some() => {
+            // Only a recorded (not repaired) defect shows in this case.
+            println!("KNOWN-FINDING: property={id} {}", is_known(&known_findings(), &id, &v.key).unwrap_or_default());
+            println!("[{id}] replay {path}: no other violation (expected class {expected_class})");
+            0
+        }
         Some(v) => {
             println!("VIOLATION property={id} replay={path}");
             println!("  class={} key={} detail={}", v.class, v.key, v.detail);
